@@ -56,6 +56,8 @@ class NumpyOrSetEncoder(json.JSONEncoder):
                 'shape': obj.shape
             }
         # Case for numpy scalars
+        if isinstance(obj, np.bool_):
+            return bool(obj)
         if isinstance(obj, np.integer):
             return int(obj)
         if isinstance(obj, np.floating):
